@@ -224,6 +224,18 @@ def run(ctx):
                 if not mg:
                     res.disagreements.append({"what": "no graph from the model", "detail": str(ans)[:300], "case": case})
                 else:
+                    # the line-by-line model of _structure (DdsModel/Structure.lean): every node and every edge, dotted ones included
+                    ms = outs[-1].get("structure")
+                    if not ms or "error" in ms:
+                        res.disagreements.append({"what": "no graph from the line-by-line model of _structure", "detail": str(ms)[:300], "case": case})
+                    else:
+                        ty = {_plotting.DirectEdge: "solid", _plotting.IndirectEdge: "dashed", _plotting.ImplicitEdge: "dotted"}
+                        impl_edges = sorted((e.from_path, e.to_path, ty[e.edge_type]) for e in g.deps)
+                        model_edges = sorted(map(tuple, ms["edges"]))
+                        if sorted(ms["nodes"]) != sorted(raw_nodes) or impl_edges != model_edges:
+                            res.disagreements.append({"what": "_structure differs from its line-by-line Lean model (structureM)",
+                                                      "impl": [sorted(raw_nodes), impl_edges], "model": [sorted(ms["nodes"]), model_edges], "case": case})
+                        res.count("structure_graphs_compared_exactly")
                     mn, msol, mda = set(mg["nodes"]), set(map(tuple, mg["solid"])), set(map(tuple, mg["dashed"]))
                     if mn != inodes or msol != isolid or mda != idashed:
                         res.disagreements.append({"what": "_structure differs from the Lean specification graphOf",
